@@ -127,6 +127,25 @@ Definition judge_ndt (sign : Z) (op_form : bool) (args : list val) (out : val) :
   | _ => JSkip
   end.
 
+(* the same accessors and replacements asked of a naive date-time: they concern its time of day, the
+   date is carried along unchanged (the date itself is not examined here) *)
+Definition with_date (y o : Z) (v : val) : val :=
+  match v with
+  | VSome (VTup [s; f]) => VSome (VTup [VInt y; VInt o; s; f])
+  | _ => v
+  end.
+
+(* the panicking twins of the constructors: the same reading, PANIC exactly where nothing is accepted *)
+Definition or_panic (v : val) : val := match v with VSome x => x | _ => VPanic end.
+Definition judge_pctor4 (scale : Z) (args : list val) (out : val) : verdict :=
+  match args with
+  | [a; b; c; d] =>
+      match u32 a, u32 b, u32 c, u32 d with
+      | Some h, Some m, Some s, Some x => judge_eq (or_panic (exp_ctor h m s (x * scale))) out
+      | _, _, _, _ => JSkip end
+  | _ => JSkip
+  end.
+
 Definition judge (op : bytes) (args : list val) (out : val) : verdict :=
   if op_is op "ndt.add" then judge_ndt 1 false args out
   else if op_is op "ndt.sub" then judge_ndt (-1) false args out
@@ -171,4 +190,32 @@ Definition judge (op : bytes) (args : list val) (out : val) : verdict :=
   else if op_is op "t.suboff" then judge_off (-1) false args out
   else if op_is op "t.addoffd" then judge_off 1 true args out
   else if op_is op "t.suboffd" then judge_off (-1) true args out
+  else if op_is op "ndt.tacc" then
+    match args with
+    | [VTup [VInt y; VInt o; s; f]] =>
+        match time_of_arg (VTup [s; f]) with Some (s, f) => judge_eq (exp_acc s f) out | None => JSkip end
+    | _ => JSkip end
+  else if op_is op "ndt.twith" then
+    match args with
+    | [VInt which; VTup [VInt y; VInt o; s; f]; b] =>
+        match time_of_arg (VTup [s; f]), u32 b with
+        | Some (s, f), Some v =>
+            if (0 <=? which) && (which <=? 3) then judge_eq (with_date y o (exp_with which s f v)) out else JSkip
+        | _, _ => JSkip end
+    | _ => JSkip end
+  else if op_is op "t.phms" then
+    match args with
+    | [a; b; c] => match u32 a, u32 b, u32 c with
+                   | Some h, Some m, Some s => judge_eq (or_panic (exp_ctor h m s 0)) out
+                   | _, _, _ => JSkip end
+    | _ => JSkip end
+  else if op_is op "t.phms_milli" then judge_pctor4 1000000 args out
+  else if op_is op "t.phms_micro" then judge_pctor4 1000 args out
+  else if op_is op "t.phms_nano" then judge_pctor4 1 args out
+  else if op_is op "t.pnsfm" then
+    match args with
+    | [a; b] => match u32 a, u32 b with
+                | Some s, Some n => judge_eq (if accept_secs_nano s n then enc_t s n else VPanic) out
+                | _, _ => JSkip end
+    | _ => JSkip end
   else JSkip.
